@@ -242,6 +242,26 @@ func crsTokens(r *vproto.Rng, forceKind string) string {
 	return fmt.Sprintf("%s %s %s %s %s %s %s %s %s %s %s %s %s %s %s %s %s %s", kind, lat0, lat1, lat2, lon0, k0, fe, fn, feM, fnM, a, rf, tw, unit, datum, style, glon, glat)
 }
 
+// shiftList draws a datum shift of n terms whose first term is positive (so that changing one term never
+// makes the translation vanish)
+func shiftList(r *vproto.Rng, n int) string {
+	var ts []string
+	for i := 0; i < n; i++ {
+		v := rnd(r, -700, 700, 4)
+		if i >= 3 {
+			v = rnd(r, -9, 9, 5)
+		}
+		if i > 0 && r.Chance(0.3) {
+			v = dInt(0, r.Intn(2))
+		}
+		if i == 0 {
+			v = rnd(r, 17, 700, 3)
+		}
+		ts = append(ts, v.String())
+	}
+	return strings.Join(ts, ",")
+}
+
 // ---- fixed corpora
 
 var rawCorpus = []string{
@@ -317,6 +337,9 @@ var rawCorpus = []string{
 	`PROJCS["x",GEOGCS["g",DATUM["D_x",SPHEROID["s",6378137,298.25]],PRIMEM["Greenwich",0],UNIT["degree",0.0174532925199433]],PROJECTION["Mercator_1SP"],PARAMETER["central_meridian"],UNIT["metre",1]]`,
 	`PROJCS["x",GEOGCS["g",DATUM["D_x",SPHEROID["s",6378137,298.25]],PRIMEM["Ferro",-17.4],UNIT["degree",0.0174532925199433]],PROJECTION["Mercator_1SP"],UNIT["metre",1]]`,
 	`PROJCS["x",PROJECTION["Mercator_1SP"],GEOGCS["g",DATUM["D_WGS_1984",SPHEROID["s",6378137,298.25]],PRIMEM["Greenwich",0],UNIT["degree",0.0174532925199433]],UNIT["metre",1]]`,
+	`PROJCS["sphere",GEOGCS["g",DATUM["D_x",SPHEROID["Sphere",6371000,0],TOWGS84[1,2,3]],PRIMEM["Greenwich",0],UNIT["degree",0.0174532925199433]],PROJECTION["Mercator_1SP"],PARAMETER["central_meridian",10],PARAMETER["scale_factor",1],PARAMETER["false_easting",250000],PARAMETER["false_northing",-40000],UNIT["metre",1]]`,
+	`GEOGCS["sphere",DATUM["D_x",SPHEROID["Sphere",6371000,0.0]],PRIMEM["Greenwich",0],UNIT["degree",0.0174532925199433]]`,
+	"+proj=merc +a=6371000 +b=6371000 +lon_0=10 +x_0=250000 +y_0=-40000 +towgs84=1,2,3",
 	`PROJCS["x",VERT_CS["y"]]`,
 	`PROJCS["x"]`,
 	`PROJCS["standard_parallel_1 only",GEOGCS["g",DATUM["D_x",SPHEROID["s",6378137,298.25]],PRIMEM["Greenwich",0],UNIT["degree",0.0174532925199433]],PROJECTION["Lambert_Conformal_Conic_1SP"],PARAMETER["standard_parallel_1",41.5],PARAMETER["central_meridian",3],PARAMETER["scale_factor",0.9999],PARAMETER["false_easting",100],PARAMETER["false_northing",200],UNIT["metre",1]]`,
@@ -349,6 +372,11 @@ var twin2Corpus = [][4]string{
 	{"+proj=longlat +a=6378137 +rf=298.25 +towgs84=1,2,3", "+proj=longlat +a=6378137 +rf=298.25 +towgs84=1,2,3 +lat_0=12", "5", "5"},
 	{"+proj=longlat +a=6378137 +rf=298.25 +towgs84=1,2,3", "+proj=longlat +a=6378137 +rf=298.25 +towgs84=1,2,3,0,0,0,2.5", "5", "5"},
 	{"+proj=tmerc +lat_0=0 +lon_0=9 +k=0.9996 +x_0=500000 +y_0=0 +a=6378137 +rf=298.257223563", "+proj=tmerc +lat_0=0 +lon_0=9 +k=0.9996 +x_0=500000 +y_0=0 +a=6378137 +rf=298.257223563 +zone=32", "10", "50"},
+	// two realisations of a datum on one ellipsoid: equal-length shift lists with different values
+	{"+proj=longlat +a=6377397.155 +rf=299.1528128 +towgs84=598.1,73.7,418.2,0.202,0.045,-2.455,6.7 +no_defs", "+proj=longlat +a=6377397.155 +rf=299.1528128 +towgs84=582,105,414,1.04,0.35,-3.08,8.3 +no_defs", "13.4", "52.5"},
+	{"+proj=longlat +a=6377397.155 +rf=299.1528128 +towgs84=598.1,73.7,418.2 +no_defs", "+proj=longlat +a=6377397.155 +rf=299.1528128 +towgs84=598.1,73.7,418.3 +no_defs", "13.4", "52.5"},
+	{`GEOGCS["Bessel A",DATUM["Local_A",SPHEROID["Bessel 1841 local",6377397.155,299.1528128],TOWGS84[598.1,73.7,418.2,0.202,0.045,-2.455,6.7]],PRIMEM["Greenwich",0],UNIT["degree",0.0174532925199433]]`, `GEOGCS["Bessel A",DATUM["Local_A",SPHEROID["Bessel 1841 local",6377397.155,299.1528128],TOWGS84[598.1,73.7,418.2,0.202,0.045,-2.455,6.8]],PRIMEM["Greenwich",0],UNIT["degree",0.0174532925199433]]`, "13.4", "52.5"},
+	{"+proj=tmerc +lat_0=0 +lon_0=9 +k=0.9996 +x_0=500000 +y_0=0 +ellps=bessel +towgs84=598.1,73.7,418.2,0.202,0.045,-2.455,6.7", "+proj=tmerc +lat_0=0 +lon_0=9 +k=0.9996 +x_0=500000 +y_0=0 +ellps=bessel +towgs84=598.1,73.7,418.2,0.212,0.045,-2.455,6.7", "10", "50"},
 }
 
 // histCorpus: texts whose AUTHORITY clauses carry codes that ARE registered names; parsing them must not
@@ -394,6 +422,10 @@ var eqCorpus = [][2]string{
 	{"+proj=merc +lon_0=1e-320 +a=6378137 +rf=298.25", "+proj=merc +lon_0=-1e-320 +a=6378137 +rf=298.25"},
 	{"+proj=merc +x_0=nan +a=6378137 +rf=298.25", "+proj=merc +a=6378137 +rf=298.25"},
 	{"+proj=longlat +a=6378137 +rf=298.25 +towgs84=nan,2,3", "+proj=longlat +a=6378137 +rf=298.25 +towgs84=nan,2,3"},
+	{"+proj=longlat +a=6378137 +rf=298.25 +towgs84=1,2,3", "+proj=longlat +a=6378137 +rf=298.25 +towgs84=1,2,4"},
+	{"+proj=longlat +a=6378137 +rf=298.25 +towgs84=1,2,3", "+proj=longlat +a=6378137 +rf=298.25 +towgs84=1,2,3.0000000000000004"},
+	{"+proj=longlat +a=6378137 +rf=298.25 +towgs84=1,2,3,1,1,1,1", "+proj=longlat +a=6378137 +rf=298.25 +towgs84=1,2,3,1,1,1,2"},
+	{"+proj=longlat +a=6378137 +rf=298.25 +towgs84=1,2,3,1,1,1,1", "+proj=longlat +a=6378137 +rf=298.25 +towgs84=2,2,3,1,1,1,1"},
 	{"EPSG:4326", "WGS84"},
 	{"EPSG:4326", "+title=WGS 84 (long/lat) +proj=longlat +ellps=WGS84 +datum=WGS84 +units=degrees"},
 	{"EPSG:3857", "GOOGLE"},
@@ -467,6 +499,44 @@ func gen(seed uint64, tier string) {
 			f := strings.Fields(crsTokens(r, k))
 			fmt.Fprintf(w, "twin %s %d %s %s\n", strings.Join(f[:16], " "), om, f[16], f[17])
 		}
+	}
+	// twins that are two realisations of one datum: the +towgs84 / TOWGS84 lists have the same length and differ in
+	// exactly ONE term (every position of 3- and 7-term lists, by 1 and by 0.01), everything else identical
+	for ki, k := range []string{"geog", "merc", "lcc", "aea", "eqdc", "tmerc"} {
+		for _, n := range []int{3, 7} {
+			for i := 0; i < n; i++ {
+				f := strings.Fields(crsTokens(r, k))
+				f[12] = shiftList(r, n)
+				f[14] = "custom"
+				if r.Bool() {
+					f[14] = fmt.Sprintf("custom:%d", 1+r.Intn(10))
+				}
+				om := 10 + i
+				if (ki+i+n)%2 == 1 {
+					om = 20 + i
+				}
+				fmt.Fprintf(w, "twin %s %d %s %s\n", strings.Join(f[:16], " "), om, f[16], f[17])
+			}
+		}
+	}
+	// spheres: PROJ.4 +a=R +b=R vs WKT SPHEROID[..,R,0]
+	nSph := 60
+	if tier == "thorough" {
+		nSph = 1500
+	}
+	for i := 0; i < nSph; i++ {
+		k := []string{"geog", "merc", "lcc", "aea", "eqdc", "tmerc"}[i%6]
+		f := strings.Fields(crsTokens(r, k))
+		if f[12] == "none" || f[12] == "0,0,0" { // no stated tie to WGS84 is the known finding `noshift`
+			if strings.HasPrefix(f[14], "custom") {
+				f[12] = shiftList(r, 3+4*r.Intn(2))
+			}
+		}
+		if f[13] == "usFoot" { // 1200/3937 is not a decimal: the two false origins agree to 1e-10 m only
+			f[13] = "usFootDec"
+			f[8], f[9] = parseD(f[6]).mul(usft).String(), parseD(f[7]).mul(usft).String()
+		}
+		fmt.Fprintf(w, "sph %s\n", strings.Join(f, " "))
 	}
 	for _, e := range eqCorpus {
 		fmt.Fprintf(w, "eq %s %s\n", hx(e[0]), hx(e[1]))
